@@ -1,44 +1,46 @@
 (* C08 — Resource limits only abort a render, never alter its output; success is monotone.  Property theorems only.
-   Statements are about Limits.run_prog repaired (model of the code after .work/fixes/C06-loop-carry.patch and
-   C08-zero-limits.patch), Mode.STRICT, over all five limits at once (lim_le: pointwise order, None = not configured = top). *)
+   Statements are about Limits.run_prog v for every variant v with is_repaired v (model of the code after
+   .work/fixes/C06-loop-carry.patch and C08-zero-limits.patch; v_item - one render-for context or one per item - left
+   free; the correspondence run uses v = Limits.repaired), Mode.STRICT, over all five limits at once
+   (lim_le: pointwise order, None = not configured = top). *)
 From LiquidVerif Require Import Prelude PyPrims Limits Limits_Proofs Limits_Sim_Proofs.
 Local Open Scope Z_scope.
 
 (* the simulation: with pointwise larger limits b, a render that completes under a completes under b in the
    identical final state (output, namespaces, logs); a render that fails under a fails identically under b or
    failed with the class of a limit on which a and b differ *)
-Theorem C08_simulation : forall a b, lim_le a b -> forall main sizes,
-  match run_prog repaired a main sizes with
-  | LOk s => run_prog repaired b main sizes = LOk s
-  | LErr e => run_prog repaired b main sizes = LErr e \/ blame a b e
-  | LFuel => run_prog repaired b main sizes = LFuel
+Theorem C08_simulation : forall v a b, is_repaired v -> lim_le a b -> forall main sizes,
+  match run_prog v a main sizes with
+  | LOk s => run_prog v b main sizes = LOk s
+  | LErr e => run_prog v b main sizes = LErr e \/ blame a b e
+  | LFuel => run_prog v b main sizes = LFuel
   end.
 Proof. exact sim_run. Qed.
 Print Assumptions C08_simulation.
 
 (* monotone: success under a limit carries over, with the same output, to any larger value of any of the limits *)
-Theorem C08_monotone : forall a b main sizes s,
-  lim_le a b -> run_prog repaired a main sizes = LOk s -> run_prog repaired b main sizes = LOk s.
+Theorem C08_monotone : forall v, is_repaired v -> forall a b main sizes s,
+  lim_le a b -> run_prog v a main sizes = LOk s -> run_prog v b main sizes = LOk s.
 Proof. exact run_monotone. Qed.
 Print Assumptions C08_monotone.
 
 (* abort only: any two configurations of the limits (comparable or not, including no limits at all) under which
    the render completes give the same result *)
-Theorem C08_abort_only : forall a b main sizes s s',
-  run_prog repaired a main sizes = LOk s -> run_prog repaired b main sizes = LOk s' -> s = s'.
+Theorem C08_abort_only : forall v, is_repaired v -> forall a b main sizes s s',
+  run_prog v a main sizes = LOk s -> run_prog v b main sizes = LOk s' -> s = s'.
 Proof. exact run_abort_only. Qed.
 Print Assumptions C08_abort_only.
 
 (* ... and a failure under limits a of a render that completes under some limits b is a ResourceLimitError
    (LoopIterationLimitError, OutputStreamLimitError, LocalNamespaceLimitError, ContextDepthError, BlockNestingError) *)
-Theorem C08_error_class : forall a b main sizes e s,
-  run_prog repaired a main sizes = LErr e -> run_prog repaired b main sizes = LOk s -> is_limit e = true.
+Theorem C08_error_class : forall v, is_repaired v -> forall a b main sizes e s,
+  run_prog v a main sizes = LErr e -> run_prog v b main sizes = LOk s -> is_limit e = true.
 Proof. exact run_error_class. Qed.
 Print Assumptions C08_error_class.
 
 (* sharper: for comparable limits the error is that of a limit that was actually raised *)
-Theorem C08_error_blame : forall a b main sizes e s,
-  lim_le a b -> run_prog repaired a main sizes = LErr e -> run_prog repaired b main sizes = LOk s -> blame a b e.
+Theorem C08_error_blame : forall v, is_repaired v -> forall a b main sizes e s,
+  lim_le a b -> run_prog v a main sizes = LErr e -> run_prog v b main sizes = LOk s -> blame a b e.
 Proof. exact run_error_blame. Qed.
 Print Assumptions C08_error_blame.
 
